@@ -934,6 +934,9 @@ func TestC08(t *testing.T) {
 		Gen:             c08Gen,
 		Check:           c08Check,
 		Enumerate: func(cx *h.Ctx, yield func(C08Case)) []string {
+			for _, sd := range c08DegenerateSeeds() {
+				yield(C08Case{Format: sd.format, Hex: hex.EncodeToString(sd.data), Fault: "valid-syntax-invalid-geometry"})
+			}
 			if cx.Thorough {
 				return c08Enumerate(cx, yield)
 			}
@@ -951,4 +954,35 @@ func TestC08(t *testing.T) {
 		},
 	}
 	h.Run(t, p)
+}
+
+// c08DegenerateSeeds: well-formed encodings of geometries that are invalid only in XY - positions that differ in Z or M
+// alone (a line with one distinct XY point, a ring collapsed onto a point or a segment). A validating decoder must
+// not hand them out. Run in both tiers, unedited.
+func c08DegenerateSeeds() []c08Seed {
+	var out []c08Seed
+	for i, w := range []string{
+		"LINESTRING Z (1 2 3,1 2 4)", "LINESTRING M (1 2 3,1 2 4)", "LINESTRING ZM (1 2 3 4,1 2 5 6)", "LINESTRING Z (1 2 3,1 2 4,1 2 5)",
+		"MULTILINESTRING Z ((0 0 0,5 5 5),(1 2 3,1 2 4))", "MULTILINESTRING M (EMPTY,(1 2 3,1 2 4))",
+		"GEOMETRYCOLLECTION Z (POINT Z (0 0 0),LINESTRING Z (1 2 3,1 2 4))",
+		"GEOMETRYCOLLECTION ZM (GEOMETRYCOLLECTION ZM (MULTILINESTRING ZM ((1 2 3 4,1 2 5 6))))",
+		"POLYGON Z ((0 0 1,0 0 2,0 0 3,0 0 1))", "POLYGON Z ((0 0 1,4 0 2,0 0 3,0 0 1))",
+		"MULTIPOLYGON M (((0 0 1,4 0 1,0 4 1,0 0 1)),((9 9 1,9 9 2,9 9 3,9 9 1)))",
+	} {
+		g, err := geom.UnmarshalWKT(w, geom.NoValidate{})
+		if err != nil {
+			panic("c08DegenerateSeeds: " + err.Error())
+		}
+		name := fmt.Sprintf("degenerate-xy-%d", i)
+		out = append(out, c08Seed{format: "wkt", data: []byte(w), name: name}, c08Seed{format: "wkb", data: g.AsBinary(), name: name})
+		if g.CoordinatesType() == geom.DimXYZ {
+			if b, err := g.MarshalJSON(); err == nil {
+				out = append(out, c08Seed{format: "geojson", data: b, name: name})
+			}
+		}
+		if b, err := geom.MarshalTWKB(g, 0, geom.TWKBPrecisionZ(0), geom.TWKBPrecisionM(0), geom.TWKBCloseRings()); err == nil {
+			out = append(out, c08Seed{format: "twkb", data: b, name: name})
+		}
+	}
+	return out
 }
